@@ -576,6 +576,59 @@ def two_requests(r, k, n):
     r.sample({"two_requests": [ka, kb], "accessors": [list(aa), list(ab)]})
 
 
+def sub_requests(r):
+    """A request is read; then a second request object is made from the same scope / environ (or a shallow copy, as an internal
+    sub-request does) with its own receive channel / input and another body: it reads its own body, not the first one's."""
+    from baize.asgi import Request as AReq
+    from baize.wsgi import Request as WReq
+    from ..core.vloop import run_coro
+    pairs = {"json": (b'{"a":1}', b'{"b":[2]}', "application/json"), "urlencoded": (b"a=1&b=2&a=3", b"z=9", "application/x-www-form-urlencoded"), "raw": (b"ab", b"cdefg", "text/plain")}
+    for kind, (b1, b2, ct) in pairs.items():
+        accs = ["body", "stream_full"] + (["json"] if kind == "json" else []) + (["form"] if kind == "urlencoded" else [])
+        for a1 in accs:
+            for a2 in accs:
+                for copy_scope in (False, True):
+                    for iface in ("wsgi", "asgi"):
+                        r.count("evaluations")
+                        r.count("traces")
+                        r.count("distinct_nontrivial")
+                        w = {"mode": "subrequest", "iface": iface, "kind": kind, "first": a1, "second": a2, "copy": copy_scope}
+                        areq1 = SV.AReq(method="POST", headers=[("Content-Type", ct)], chunks=[b1])
+                        areq2 = SV.AReq(method="POST", headers=[("Content-Type", ct)], chunks=[b2[:1], b2[1:]])
+                        try:
+                            if iface == "asgi":
+                                sc = SV.to_scope(areq1)
+                                m1, m2 = SV.to_messages(areq1), SV.to_messages(areq2)
+
+                                def chan(msgs):
+                                    async def receive():
+                                        return msgs.pop(0) if msgs else {"type": "http.disconnect"}
+                                    return receive
+
+                                async def prog():
+                                    q1 = AReq(sc, chan(m1))
+                                    g1, _ = await asgi_access(q1, a1, [])
+                                    q2 = AReq(dict(sc) if copy_scope else sc, chan(m2))
+                                    g2, _ = await asgi_access(q2, a2, [])
+                                    alone, _ = await asgi_access(AReq(SV.to_scope(areq2), chan(SV.to_messages(areq2))), a2, [])
+                                    return g1, g2, alone
+                                g1, g2, alone = run_coro(prog())
+                            else:
+                                env = SV.to_environ(areq1)
+                                g1, _ = wsgi_access(WReq(env), a1, [])
+                                env2 = dict(env) if copy_scope else env
+                                env2["wsgi.input"] = SV.to_environ(areq2)["wsgi.input"]
+                                env2["CONTENT_LENGTH"] = str(len(b2))
+                                g2, _ = wsgi_access(WReq(env2), a2, [])
+                                alone, _ = wsgi_access(WReq(SV.to_environ(areq2)), a2, [])
+                        except Exception as e:  # noqa
+                            r.violation(f"subrequest:exception:{type(e).__name__}", w, f"{iface} sub-request ({kind}, {a1} then {a2}) raised {e!r:.120}")
+                            continue
+                        if g2 != alone:
+                            r.violation(f"subrequest:{iface}", w, f"{iface}: first request read with {a1} ({g1!r:.60}); a second request object on {'a copy of ' if copy_scope else ''}the same {'scope' if iface == 'asgi' else 'environ'} with its own body read with {a2}: {g2!r:.100}, alone {alone!r:.100}")
+    r.sample({"subrequest": "second request object from the same scope/environ with another body"})
+
+
 # ---------------------------------------------------------------- shards
 def big_bodies(r):
     """Bodies around the read size of the WSGI stream (4096 * 16): exact equality and exact chunk accounting on both interfaces."""
@@ -603,7 +656,7 @@ def big_bodies(r):
                             async def receive():
                                 i[0] += 1
                                 if i[0] > len(msgs):
-                                    await s.env.gate("never")
+                                    raise AssertionError("receive() called after the final request message")
                                 return dict(msgs[i[0] - 1])
                             req = AReq(SV.to_scope(areq), receive)
 
@@ -620,7 +673,7 @@ def big_bodies(r):
 
 
 def shards(tier, seed):
-    out = [("big",)] + [("two", k, 8) for k in range(8)]
+    out = [("big",), ("subrequests",)] + [("two", k, 8) for k in range(8)]
     for iface in ("wsgi", "asgi"):
         for kind in KINDS:
             out.append(("seq", iface, kind))
@@ -639,6 +692,10 @@ def run_shard(desc, tier):
         return r
     if desc[0] == "two":
         two_requests(r, desc[1], desc[2])
+        return r
+    if desc[0] == "subrequests":
+        sub_requests(r)
+        r.count("states", 1)
         return r
     if desc[0] == "seq":
         _, iface, kind = desc
@@ -704,6 +761,11 @@ def finish(merged, tier):
 
 
 def replay(w):
+    if w["mode"] == "subrequest":
+        r = R()
+        sub_requests(r)
+        hits = {k: v for k, v in r.viol.items() if all(v[1].get(x) == w.get(x) for x in ("iface", "kind", "first", "second", "copy"))}
+        return bool(hits), {"violations": sorted(hits), "texts": [v[2][:300] for v in hits.values()]}
     if w["mode"] == "big":
         r = R()
         big_bodies(r)
